@@ -117,3 +117,13 @@ claim('C10', 'Lean 4 refinement proof (step loop with running address = expanded
       'without argument, @REG on a non-register operand) are rejected. Each run compares on the real CLI the program with '
       'invocations against the hand-expanded program (image incl. following label addresses) and the invocation bytes against the model.',
       NOTE + ' @ARG(n) inside a larger expression is generated for atomic argument texts only (substitution is textual); @OP(n) not with empty operands.')
+
+claim('C19', 'Lean 4 proofs (validate accepts iff well-formed; version comparison is a numeric total order; gate and #require decision logic) + fault-catalogue correspondence',
+      'Kernel-checked theorems: the model validator accepts a definition iff it is well-formed in the declarative sense of the '
+      'property (sections, keywords, macro/instruction names, declared sets and registers, counts, non-inverted ranges, zones inside '
+      'the address space and GLOBAL); version comparison is a total order comparing release numbers as numbers with pre-releases '
+      'before the release; the min_version gate holds iff minSupported <= required <= running; #require is honoured iff name and '
+      'comparison hold. Each run drives the real CLI with well-formed generated definitions (all accepted) and every single-fault '
+      'corruption of the catalogue (all rejected), version strings where numeric and lexical order differ, and #require lines; the '
+      'abstraction given to the model is extracted from the final definition, not from the injected fault.',
+      NOTE + ' PyYAML and packaging.version are modelled (release numbers + a/b/rc); configuration errors outside the named checks are outside the catalogue.')
